@@ -514,15 +514,66 @@ func perlUnescape(s string) ([]rune, error) {
 
 // templateConst finds the constant text given to (*template.Template).Parse in
 // the initialiser of the package variable varName.
+// templateAnchors: who executes the template kept in a variable of that
+// (reference) name — the way to find it when it has been renamed or moved.
+var templateAnchors = map[string][3]string{
+	"funcListTemplate": {sffPkg, "", "GenFuncList"},
+	"perlTemplate":     {sffPkg, "", "FromPerl"},
+}
+
+// templateGlobal: the package-level *template.Template the rules call
+// varName: under that name in its package, or in another package of the
+// module, or the one the anchor function executes.
+func templateGlobal(p *Prog, pkgSuffix, varName string) *ssa.Global {
+	if sp := p.SSAPkg[ModPath+"/"+pkgSuffix]; nil != sp {
+		if g, ok := sp.Members[varName].(*ssa.Global); ok {
+			return g
+		}
+	}
+	var found []*ssa.Global
+	for path, sp := range p.SSAPkg {
+		if !strings.HasPrefix(path, ModPath) {
+			continue
+		}
+		if g, ok := sp.Members[varName].(*ssa.Global); ok {
+			found = append(found, g)
+		}
+	}
+	if 1 == len(found) {
+		return found[0]
+	}
+	if an, ok := templateAnchors[varName]; ok {
+		if fn := p.Func(an[0], an[1], an[2]); nil != fn {
+			var g *ssa.Global
+			n := 0
+			for _, f := range withAnons(fn) {
+				eachInstr(f, func(i ssa.Instruction) {
+					c := callCommon(i)
+					if nil == c || "(*text/template.Template).Execute" != calleeName(c) {
+						return
+					}
+					if ld, isLd := c.Args[0].(*ssa.UnOp); isLd && token.MUL == ld.Op {
+						if gg, isG := ld.X.(*ssa.Global); isG {
+							g = gg
+							n++
+						}
+					}
+				})
+			}
+			if 1 == n {
+				return g
+			}
+		}
+	}
+	return nil
+}
+
 func templateConst(p *Prog, pkgSuffix, varName string) (string, token.Pos) {
-	sp := p.SSAPkg[ModPath+"/"+pkgSuffix]
-	if nil == sp {
+	g := templateGlobal(p, pkgSuffix, varName)
+	if nil == g || nil == g.Pkg {
 		return "", token.NoPos
 	}
-	g, ok := sp.Members[varName].(*ssa.Global)
-	if !ok {
-		return "", token.NoPos
-	}
+	sp := g.Pkg
 	init := sp.Func("init")
 	var text string
 	var pos token.Pos
@@ -536,6 +587,14 @@ func templateConst(p *Prog, pkgSuffix, varName string) (string, token.Pos) {
 		}) {
 			if s, ok := constString(x.V); ok && len(s) > len(text) {
 				text, pos = s, st.Pos()
+			}
+			/* The text kept in a file of its own (go:embed). */
+			if eg, isG := x.V.(*ssa.Global); isG && "global" == x.Kind && nil != eg.Pkg {
+				if q := p.ByPath[eg.Pkg.Pkg.Path()]; nil != q {
+					if s, _, err := p.embeddedFileIn(q, eg.Name()); nil == err && len(s) > len(text) {
+						text, pos = s, st.Pos()
+					}
+				}
 			}
 		}
 	})
